@@ -12,7 +12,7 @@ import typing
 import warnings
 from collections import defaultdict
 
-from .. import e2e
+from .. import e2e, guard
 from ..common import Rng, hx, unhx
 from ..runner import Check
 from ..translate import graphql_tables
@@ -794,6 +794,10 @@ def campaign_e2e(ck: Check, n_docs: int, variants: int) -> None:
         for kind in kinds:
             flags = {f: True for f in FLAGS if rng.chance(1, 3)}
             smap = {s: rng.choice(["int", "float", "bool", "str"]) for s in scalars if rng.chance(1, 3)}
+            # the configured Python type must be honoured for the predefined scalars as well
+            for b in BUILTIN:
+                if rng.chance(1, 6):
+                    smap[b] = rng.choice([t for t in ("int", "float", "bool", "str") if t != BUILTIN[b]])
             key = (sdl, kind, json.dumps(flags, sort_keys=True), json.dumps(smap, sort_keys=True))
             camp.distinct.add(key)
             oracle_case(ck, camp, sdl, kind, flags, smap, rng.next() & 0xFFFFFFFF)
@@ -801,6 +805,9 @@ def campaign_e2e(ck: Check, n_docs: int, variants: int) -> None:
 
 
 CORPUS = [
+    # overrides of predefined scalars
+    ("type A { f_a: ID! f_b: [Float] f_c: Int f_d: String! f_e: Boolean }\nschema { query: A }\n", "pydantic_v2.BaseModel", {}, {"ID": "int", "Float": "str"}),
+    ("input A { f_a: ID! f_b: [Float!]! f_c: Int f_d: String! f_e: Boolean }\ntype Q { f_q: Int }\nschema { query: Q }\n", "pydantic.BaseModel", {}, {"Int": "str", "String": "int", "Boolean": "float"}),
     # nested wrappers, every nullability pattern of depth 2
     ("type A { f_a: [[Int!]]! f_b: [[Int]!] f_c: [[Int]]  f_d: [[Int!]!]! f_e: [A!] f_g: A! }\nschema { query: A }\n", "pydantic_v2.BaseModel", {}, {}),
     ("type A { f_a: [[Int!]]! f_b: [[Int]!] f_c: [[Int]]  f_d: [[Int!]!]! f_e: [A!] }\nschema { query: A }\n", "pydantic.BaseModel", {"use_union_operator": True, "use_standard_collections": True}, {}),
@@ -905,9 +912,9 @@ def run(ck: Check) -> None:
         "a JSON object conforming to an object type supplies every field (nullable ones possibly null); input objects may leave nullable fields out; values of a custom scalar are values of its configured Python type",
         "the pydantic-v1-style output is executed on pydantic.v1 of pydantic 2.13; msgspec output is not executable here and is not part of this oracle",
     ]
-    campaign_parse_field(ck, 12 if quick else 100, 40)
-    campaign_object_like(ck, 120 if quick else 1000)
-    campaign_e2e(ck, 150 if quick else 1200, 2)
+    guard.campaign(ck, campaign_parse_field, 12 if quick else 100, 40)
+    guard.campaign(ck, campaign_object_like, 120 if quick else 1000)
+    guard.campaign(ck, campaign_e2e, 150 if quick else 1200, 2)
     ck.search_hooks.append(search_wrappers)
     ck.search_hooks.append(shrink_first_failure)
     shrink_first_failure(ck)
